@@ -10,7 +10,7 @@ CLAIMED = {
         category="proof",
         text="Theorems (coq/props/C06.v) over ALL rename histories: reverse/forward rename maps, call-site mapping, defaults, GraphNode "
              "default/bound lookup, map_over/clone translation and output mapping equal the positional specification sigma. Tied to /repo by "
-             "differential runs of all five node kinds under generated histories (direct observables and real runner executions).",
+             "differential runs of all five node kinds under generated histories (direct observables and real runner executions). WHOLE GRAPHS (C06_alpha_equations, C06_alpha_runs): renaming every value name of an acyclic gate-free graph consistently through an injective map (executors differing only by dictionary names) renames the solutions of the dataflow equations, so completed runs of the renamed graph return the original values under the new names; hypotheses instantiated in C06_alpha_example.",
         design_ref="DESIGN.md section 5 C06",
         note="Model = coq/theories/Rename.v written by hand from nodes/_rename.py, _callable.py, base.py, graph_node.py; batch_id grouping is "
              "abstracted (one with_* call = one batch); alpha-renaming of whole runs is covered by the run-level oracle of the harness, not yet by a theorem.",
@@ -54,7 +54,7 @@ CLAIMED.update({
         text="Theorems about the scheduler's ready list in EVERY state of EVERY graph: a gated node is scheduled only if a controlling gate's "
              "standing decision names it or a default-open controlling gate has not executed; a ready gate holds back its targets; a standing "
              "non-END decision is fresh (stale ones are cleared first); END is terminal. Tied to /repo by exact call-sequence correspondence and "
-             "an oracle over the implementation's own NodeStart/RouteDecision events.",
+             "an oracle over the implementation's own NodeStart/RouteDecision events. WHOLE RUNS (C03_run_routes): for the routed fan gate(c) -> B | C | END with arbitrary branch functions and any routing function, under either runner and any budget >= 2, the gate runs once and first, exactly the selected branch runs once, the other never and its output is absent; instantiated with the harness's executor (C03_model_routes) and the model program itself is run against the implementation (gated_obs).",
         design_ref="DESIGN.md section 5 C03",
         note="Run level: C03_closed_gate_first (a node behind a closed-by-default gate is never scheduled before the gate has completed an execution). "
              "The exactly-the-selected-branches corollary for acyclic graphs is checked by the oracle (exact-branches rule), not proved.",
@@ -185,7 +185,7 @@ CLAIMED.update({
              "yields exactly what a handler returning that response yields; the asynchronous step runs the first ready interrupt alone "
              "(one at a time); a pause inside a nested graph surfaces with the wrapper's name prefixed at every depth; the PAUSED result "
              "carries the state before the interrupt's step. Tied to /repo by driving DAGs with 1-3 interrupts (siblings ready together, "
-             "self-answering handlers, falsy answers, nested) through complete pause/resume histories.",
+             "self-answering handlers, falsy answers, nested) through complete pause/resume histories. WHOLE RUNS (C14_run_pauses / _resumes / _answered, C14_model_run): for the chain A -> I[interrupt] -> B(a, d) with arbitrary node functions under the asynchronous runner: a handler that does not answer pauses after A and before B (pause identity, returned state, call log); the call with the response supplied resumes (I passes it on, B runs once, the run completes); values and call log equal those of the run whose handler answers; the model program is run against the implementation (chain_obs).",
         design_ref="DESIGN.md section 5 C14",
         note="partial: 'resume == handler returned the response' for whole runs is decided per generated history by the oracle (the "
              "executor-level statement is proved); interrupts whose upstream-fed input has a default pause early and again (known finding F-f).",
@@ -209,7 +209,7 @@ CLAIMED.update({
         category="proof",
         text="Theorems: with entry points only active nodes are ever scheduled (every state); a returned key is a declared output (or a "
              "selected name) holding the state's value and never an ordering sentinel. Tied to /repo by runs over entry-point sets x "
-             "graph/run-time selections x on_missing, including failed results; the active set is computed by the spec (reachability).",
+             "graph/run-time selections x on_missing, including failed results; the active set is computed by the spec (reachability). WHOLE RUNS (C16_run_scope): every node call of every run, however it ends, is a call of a node of the active set.",
         design_ref="DESIGN.md section 5 C16",
         note="the on_missing policy is modelled (Engine.select_outputs) and proved to report exactly the selected names absent from the state (C16_missing_names, C16_on_missing); nested exposure is checked differentially.",
         technique="Coq proof (filter characterisation) + differential correspondence",
@@ -219,7 +219,7 @@ CLAIMED.update({
         text="Safety theorems for every state of every graph: a scheduled waiter's names exist, no other producer of them is scheduled in the "
              "same step, and a waiter that ran before sees a strictly newer version. Liveness: every emission strictly increases the signal's "
              "version (after the fix recorded in known_findings.json) and the ready list is complete. Tied to /repo by an event-stream oracle "
-             "and exact call-sequence correspondence incl. multi-producer signals and two-signal waiters in cycles.",
+             "and exact call-sequence correspondence incl. multi-producer signals and two-signal waiters in cycles. WHOLE RUNS (C17_waiter_once_per_production): in the signal-synchronised loop the waiting gate runs exactly as often as the signal is produced, for every body function and predicate.",
         design_ref="DESIGN.md section 5 C17",
         note="Provenance ('a producer of the awaited signal has completed', C17_after_producer) is proved under the executor contract that a node returns values for its declared outputs only; iteration counts of signal-synchronised loops are decided by the oracle (SpecWhile).",
         technique="Coq proof (ready-list characterisation, version arithmetic) + event-stream oracle",
